@@ -3,7 +3,7 @@
     bit-level [bsi_cmp] GE / LE only.  Strings are byte lists. *)
 From Coq Require Import ZArith List Bool.
 From Coq Require Import Floats.SpecFloat.
-From Comet Require Import Base.FBits Base.Parse Base.Sorting Model.BSI.
+From Comet Require Import Base.FBits Base.Parse Base.Sorting Model.BSI Model.VecIndex.
 Import ListNotations.
 Open Scope Z_scope.
 
@@ -39,7 +39,6 @@ Definition trunc_sf (f : spec_float) : Z :=
 Definition float_fix (bits : Z) : Z := trunc_sf (F64.of_bits (F64.mul bits c_hundred)).
 
 (** set operations on sorted-free id lists *)
-Fixpoint memz (x : Z) (l : list Z) : bool := match l with [] => false | y :: t => (x =? y) || memz x t end.
 Definition set_add (x : Z) (l : list Z) : list Z := if memz x l then l else l ++ [x].
 Definition set_remove (x : Z) (l : list Z) : list Z := filter (fun y => negb (y =? x)) l.
 Definition set_union (a b : list Z) : list Z := fold_left (fun acc x => set_add x acc) b a.
